@@ -59,10 +59,12 @@ func runC08(c string) string {
 	}
 	gobsame := "-"
 	if len(results) == 0 {
-		d3, err := exec.VerifCompileEncoded(fn, mc, args...)
+		d3, envWritable, err := exec.VerifCompileEncoded(fn, mc, args...)
 		switch {
 		case err != nil:
 			gobsame = "err"
+		case envWritable:
+			gobsame = "envwritable"
 		case strings.Join(d1, "\n") == strings.Join(d3, "\n"):
 			gobsame = "1"
 		default:
